@@ -191,6 +191,7 @@ package motion
 //@   modifies mp.log.previousTime, mp.log.previousEntry, mp.log.gLast, mp.log.gTime, mp.log.gPrinted, mp.log.gNow
 //@   ensures [C04] (result == nil) == (mp.window.activeNow && mp.recorder.canRec)
 //@   ensures mp.log.inv()
+//@   ensures [C20] ncalls("log.Printf") == 0 && ncalls("log.Print") == 0 && ncalls("log.Println") == 0
 
 //@ func (mp *MotionProcessor) recordPreTriggerFrames
 //@   requires mp != nil && mp.wired() && mp.frameLoop.inv()
@@ -209,6 +210,7 @@ package motion
 //@   ensures [C01,C02] result == nil ==> (mp.recorder.inFile > 0 ==> mp.recorder.first == mp.frameLoop.hs() && mp.recorder.next == mp.frameLoop.n())
 //@   ensures [C01] mp.recorder.writes == old(mp.recorder.writes) + mp.recorder.inFile
 //@   ensures mp.log.inv()
+//@   ensures [C20] ncalls("log.Printf") == 0 && ncalls("log.Print") == 0 && ncalls("log.Println") == 0
 
 //@ func (mp *MotionProcessor) startRecording
 //@   requires mp != nil && mp.wired() && mp.recState() && !mp.isRecording
@@ -226,15 +228,17 @@ package motion
 //@   ensures [C15] old(mp.recorder.startOK) ==> mp.recorder.bg == ref(mp.motionDetector.background) && mp.recorder.thresh == mp.motionDetector.tempThresh
 //@   ensures [C01] mp.recorder.writes == old(mp.recorder.writes) + (old(mp.recorder.startOK) ? mp.recorder.inFile : 0)
 //@   ensures mp.log.inv()
+//@   ensures [C20] ncalls("log.Printf") == 0 && ncalls("log.Print") == 0 && ncalls("log.Println") == 0
 
 //@ func (mp *MotionProcessor) stopRecording
 //@   requires mp != nil && mp.wired() && mp.frameLoop.inv() && mp.isRecording == mp.recorder.open
 //@   modifies mp.log.previousTime, mp.log.previousEntry, mp.log.gLast, mp.log.gTime, mp.log.gPrinted, mp.log.gNow
 //@   modifies mp.framesWritten, mp.writeUntil, mp.isRecording, mp.triggered, mp.frameLoop.oldest, mp.frameLoop.mark, mp.recorder.open, mp.recorder.stops, mp.recorder.stopOK
-//@   ensures [C12] !mp.isRecording && !mp.recorder.open && mp.frameLoop.inv()
+//@   ensures [C12,C13] !mp.isRecording && !mp.recorder.open && mp.frameLoop.inv()
 //@   ensures old(mp.isRecording) ==> mp.framesWritten == 0 && mp.writeUntil == 0 && mp.triggered == 0 && mp.frameLoop.mark == mp.frameLoop.n() && mp.recorder.stops == old(mp.recorder.stops) + 1
 //@   ensures !old(mp.isRecording) ==> mp.framesWritten == old(mp.framesWritten) && mp.writeUntil == old(mp.writeUntil) && mp.triggered == old(mp.triggered) && mp.frameLoop.mark == old(mp.frameLoop.mark) && mp.recorder.stops == old(mp.recorder.stops) && result == nil
 //@   ensures mp.log.inv()
+//@   ensures [C20] ncalls("log.Printf") == 0 && ncalls("log.Print") == 0 && ncalls("log.Println") == 0
 
 //@ func (mp *MotionProcessor) process
 //@   requires mp != nil && mp.PInv() && frame != nil && frame == mp.frameLoop.frames[mp.frameLoop.currentIndex]
@@ -267,6 +271,7 @@ package motion
 //@   ensures [C03] (old(mp.isRecording) || mp.recorder.starts != old(mp.recorder.starts)) && !mp.recorder.wfault ==> ((mp.recorder.stops == old(mp.recorder.stops) + 1) == ((mp.recorder.starts != old(mp.recorder.starts) ? 1 : old(mp.framesWritten) + 1) >= min((mp.recorder.starts != old(mp.recorder.starts) ? 0 : (mp.gMotion ? old(mp.framesWritten) : old(mp.lastMotionFW))) + mp.minFrames, mp.maxFrames)))
 //@   ensures [C03] !(old(mp.isRecording) || mp.recorder.starts != old(mp.recorder.starts)) ==> mp.recorder.stops == old(mp.recorder.stops)
 //@   ensures [C03] mp.recorder.stops == old(mp.recorder.stops) || mp.recorder.stops == old(mp.recorder.stops) + 1
+//@   ensures [C20] ncalls("log.Printf") == 0 && ncalls("log.Print") == 0 && ncalls("log.Println") == 0
 
 //@ func (mp *MotionProcessor) stopConstantRecorder
 //@   requires mp != nil && mp.wired() && mp.PInvC()
@@ -275,6 +280,7 @@ package motion
 //@   ensures [C12,C13] mp.PInvC() && (mp.constantRecording ==> !mp.constantRecorder.open)
 //@   ensures [C13] mp.constantRecording ==> mp.constantRecorder.writes == old(mp.constantRecorder.writes)
 //@   ensures mp.log.inv()
+//@   ensures [C20] ncalls("log.Printf") == 0 && ncalls("log.Print") == 0 && ncalls("log.Println") == 0
 
 //@ func (mp *MotionProcessor) processConstantRecorder
 //@   requires mp != nil && mp.wired() && mp.PInvC() && 0 <= mp.maxFrames && frame != nil
@@ -289,6 +295,7 @@ package motion
 //@   ensures [C17] mp.constantRecording && mp.constantRecorder.writes == old(mp.constantRecorder.writes) ==> mp.constantRecorder.stops == old(mp.constantRecorder.stops)
 //@   ensures [C17] ncalls("WriteFrame") == 1 ==> callarg("WriteFrame", 1, 1) == frame
 //@   ensures [C17] !mp.constantRecording ==> ncalls("WriteFrame") == 0 && ncalls("StartRecording") == 0 && ncalls("StopRecording") == 0
+//@   ensures [C20] ncalls("log.Printf") == 0 && ncalls("log.Print") == 0 && ncalls("log.Println") == 0
 
 //@ func (mp *MotionProcessor) processSnapshot
 //@   requires mp != nil && mp.wired() && mp.PInvS() && frame != nil
@@ -305,6 +312,7 @@ package motion
 //@   ensures [C17] old(mp.snapTidy()) && mp.snapshotRecorder.inFile == 21 && mp.snapshotRecorder.writes != old(mp.snapshotRecorder.writes) ==> mp.snapshotRecorder.stops == old(mp.snapshotRecorder.stops) + 1
 //@   ensures [C17] ncalls("WriteFrame") == 1 ==> callarg("WriteFrame", 1, 1) == frame
 //@   ensures [C17] !old(mp.StartSnapshot) && !old(mp.SnapshotRecording) ==> ncalls("WriteFrame") == 0 && ncalls("StartRecording") == 0 && ncalls("StopRecording") == 0
+//@   ensures [C20] ncalls("log.Printf") == 0 && ncalls("log.Print") == 0 && ncalls("log.Println") == 0
 
 //@ func NewMotionProcessor
 //@   allocates
@@ -338,6 +346,7 @@ package motion
 //@   ensures [C14,C09] ncalls("Reset") == 1 && ncalls("stopRecording") == 1
 //@   ensures [C09,C14] mp.motionDetector.flooredFrames.n() == 0 && mp.motionDetector.diffFrames.n() == 0 && mp.motionDetector.epoch == 0 && mp.motionDetector.backgroundFrames == 0
 //@   ensures [C12] mp.recorder.stops == old(mp.recorder.stops) + (old(mp.isRecording) ? 1 : 0) && mp.recorder.writes == old(mp.recorder.writes)
+//@   ensures [C20] ncalls("log.Printf") == 0 && ncalls("log.Print") == 0 && ncalls("log.Println") == 0
 
 //@ func (mp *MotionProcessor) GetRecentFrame
 //@   allocates
@@ -374,6 +383,7 @@ package motion
 //@   ensures [C13] result != nil ==> mp.recorder.stops == old(mp.recorder.stops) + (old(mp.isRecording) ? 1 : 0)
 //@   ensures [C13,C17] result == nil ==> ncalls("process") == 1 && ncalls("processConstantRecorder") == 1 && ncalls("processSnapshot") == 1 && mp.frameLoop.n() == old(mp.frameLoop.n()) + 1
 //@   ensures [C13,C17] ncalls("process") == 1 && ncalls("processConstantRecorder") == 1 && ncalls("processSnapshot") == 1 ==> callarg("process", 1, 1) == old(mp.frameLoop.frames[mp.frameLoop.currentIndex]) && callarg("processConstantRecorder", 1, 1) == callarg("process", 1, 1) && callarg("processSnapshot", 1, 1) == callarg("process", 1, 1)
+//@   ensures [C20] ncalls("log.Printf") == 0 && ncalls("log.Print") == 0 && ncalls("log.Println") == 0
 
 //@ func (mp *MotionProcessor) ProcessFrame
 //@   requires mp != nil && mp.PInv() && frameDims(srcFrame, mp.motionDetector.gResX, mp.motionDetector.gResY)
@@ -387,6 +397,7 @@ package motion
 //@   ensures [C03] mp.recLen()
 //@   ensures [C04] mp.recRun()
 //@   ensures [C12,C17] mp.PInvC() && mp.PInvS()
+//@   ensures [C20] ncalls("log.Printf") == 0 && ncalls("log.Print") == 0 && ncalls("log.Println") == 0
 
 // ---------------------------------------------------------------------------
 // L2: detector (C07 C08 C09 C15)
